@@ -5,6 +5,7 @@
 From Coq Require Import ZArith List.
 From Coq Require Import Permutation List.
 From BS Require Import Word BumpSpec ChunkSpec Arena ArenaInv ArenaStats ArenaMisc ArenaExt ArenaInv2 ArenaReplay ArenaSizes ArenaLoop ArenaLinks.
+From BS.gen Require AlignFacts.
 Import ListNotations.
 Open Scope Z_scope.
 
@@ -124,6 +125,12 @@ Theorem C03_one_step_back_is_not_the_start :
   forall n i, (2 <= i)%nat -> run_reset_to_start false (ArenaLinks.fresh n) i = WOk (i - 1)%nat /\ (i - 1 <> 0)%nat.
 Proof. exact one_step_back_is_not_the_start. Qed.
 
+(* scoped_aligned takes its scope guard - the checkpoint it returns to - BEFORE it aligns the position (gen/AlignFacts.v,
+   read out of the current source on every run): leaving the region restores the position of the entry exactly *)
+Theorem C03_source_scoped_aligned_checkpoints_before_aligning :
+  AlignFacts.scoped_aligned_takes_its_checkpoint_before_aligning = true.
+Proof. vm_compute. reflexivity. Qed.
+
 Print Assumptions C03_checkpoint_records_position.
 Print Assumptions C03_reset_loop_converges.
 Print Assumptions C03_loop_quiet_forever.
@@ -138,3 +145,4 @@ Print Assumptions C03_reset_to_keeps_invariant.
 Print Assumptions C03_reset_to_start_releases_none.
 Print Assumptions C03_reset_to_start_reaches_the_first_chunk.
 Print Assumptions C03_one_step_back_is_not_the_start.
+Print Assumptions C03_source_scoped_aligned_checkpoints_before_aligning.
